@@ -49,7 +49,7 @@ def h_ordinal(ctx, m, N, n_nan, ymode, props):
     ctx.assume(mf <= 0.5)
     X = pd.DataFrame({"f": pd.Series(col, dtype=object)})
     x_in = X.copy()
-    d = OrdinalDiscretizer(["f"], min_freq=mf, values_orders={"f": GroupedList(ranking_container(ctx, labels))}, copy=True, verbose=False)
+    d = OrdinalDiscretizer(["f"], min_freq=mf, values_orders={"f": GroupedList(ranking_container(ctx, labels, which=("list", "array", "grouped", "dict")[(len(col) + len(labels)) % 4]))}, copy=True, verbose=False)
     try:
         d.fit(X, y)
     except Violation:
